@@ -148,6 +148,55 @@ def life_scenarios(rng):
     return out
 
 
+def relinearize(evs):
+    """The return of a parked background call (receive / accept) that was logged between the call and the return of a foreground
+    call is concurrent with that foreground call: its linearization point may lie after the foreground call's.  SockTrace applies
+    effects at return events, so the alternative order is expressed by moving the background return behind the foreground return."""
+    out = list(evs)
+    i = 0
+    moved = 0
+    while i < len(out):
+        e = out[i]
+        if e.get("e") == "sret" and e.get("bg") == 1:
+            # inside a foreground call window?
+            open_fg = None
+            for j in range(i - 1, -1, -1):
+                x = out[j]
+                if x.get("e") == "Reset":
+                    break
+                if x.get("bg") == 0 and x.get("e") == "sret":
+                    break
+                if x.get("bg") == 0 and x.get("e") == "scall":
+                    open_fg = j
+                    break
+            if open_fg is not None:
+                for j in range(i + 1, len(out)):
+                    if out[j].get("e") == "sret" and out[j].get("bg") == 0:
+                        out.insert(j, out.pop(i))      # now directly behind the foreground return (indices shift by one)
+                        moved += 1
+                        i -= 1
+                        break
+        i += 1
+    return out, moved
+
+
+def validate_sock(ctx, cfg, tp):
+    """validate one socket trace; a rejection is re-examined under the alternative linearization of concurrent returns"""
+    ok, matched = ctx.validate("net/SockTrace.tla", cfg, tp)
+    if ok:
+        return ok, matched
+    evs = [json.loads(x) for x in open(tp)]
+    alt, moved = relinearize(evs)
+    if not moved:
+        return ok, matched
+    ap = traces.write(alt, tp + ".alt.ndjson")
+    ok2, matched2 = ctx.validate("net/SockTrace.tla", cfg, ap)
+    if ok2:
+        ctx.notes.append("%s accepted under the alternative order of %d concurrent background return(s)" % (os.path.basename(tp), moved))
+        return True, matched2
+    return ok, matched
+
+
 def run(ctx):
     mode = MODE[ctx.pid]
     rng = ctx.rng
@@ -198,7 +247,9 @@ def run(ctx):
                         ctx.drift.append({"call": infos[k]["call"], "plan": infos[k]["plan"], "observed": calls, "model": want})
     ctx.extra["syscall_sequence_mismatches"] = sysdrift
     cfg = "SockTrace_%s.cfg" % mode
-    res = ctx.validate_many("net/SockTrace.tla", cfg, [t for _, t, _ in files], par=8)
+    from concurrent.futures import ThreadPoolExecutor
+    with ThreadPoolExecutor(8) as ex:
+        res = list(ex.map(lambda t: (t,) + validate_sock(ctx, cfg, t), [t for _, t, _ in files]))
     for (sp, tp, grp), (_, ok, matched) in zip(files, res):
         if ok:
             ctx.behaviours += len(grp)
